@@ -338,6 +338,10 @@ def run_case(chk, ob, ip, prog, case, props, extra_judge=None):
         V = HE.judge(data, eff, dec, cache_on=bool(case.cache), expect_incomplete=inc, denied=denied, allow_pooler_replies=bool(case.plugins or case.custom),
                      idle_rule=(case.mode == 'transaction' and not case.plugins and not case.custom and eff is complete),
                      stats_rule=('C18' in props and not case.plugins and not case.custom and eff is complete))
+        if case.cache and data['outcome'] == ('done', 'Err') and program_valid(complete) is False:
+            # statement caching on: the pooler resolves names itself and ends the session of a client that binds / describes a statement it has not
+            # prepared (or has closed) -- the requests of such a program need not reach a server
+            V = [v for v in V if v[1] != 'H/request-not-forwarded']
         if failed_at and data['outcome'][0] == 'done' and data['client_read'] < len(sent):
             V.append(('C04', 'H/checkout-failure-ends-session', 'after a checkout that timed out the session is ended instead of staying usable'))
         V += customV
@@ -922,6 +926,27 @@ def c12_reference(data, script, dec, startup):
         if cm is not None and bytes(cm) in sets:
             want.update(sets[bytes(cm)])
     return V
+
+
+def program_valid(script):
+    """Every Bind / Describe(S) names a statement this client has prepared and not closed (unnamed statement included).  None if undecidable."""
+    stmts = set()
+    for m in script:
+        cm = HE.conc(m)
+        if cm is None:
+            return None
+        c, body = cm[:1], cm[5:]
+        if c == b'P':
+            stmts.add(body.split(b'\0', 1)[0])
+        elif c == b'B':
+            if body.split(b'\0', 2)[1] not in stmts:
+                return False
+        elif c == b'D' and body[:1] == b'S':
+            if body[1:].split(b'\0', 1)[0] not in stmts:
+                return False
+        elif c == b'C' and body[:1] == b'S':
+            stmts.discard(body[1:].split(b'\0', 1)[0])
+    return True
 
 
 def c08_reference(data, script, dec, cache_size=None):
